@@ -74,19 +74,14 @@ def Word.decode (w : Word) (bs : Bytes) : Int :=
   | .l16 | .l24 | .l32 => (leVal bs : Int)
   | .b16 | .b24 | .b32 => (beVal bs : Int)
 
-/-- value returned on a failed read by the memory and callback back-ends
-(mdataio.h, callbackio.h): all ones; `(int8)0xff = -1` for `read8s`. -/
+/-- value returned on a failed read by all three back-ends (dataio.c, mdataio.h,
+callbackio.h): all ones; `(int8)0xff = -1` for `read8s` (dataio.c's `read8s` used to
+return 0 — divergence D1, repaired in libxmp). -/
 def Word.failOnes : Word → Int
   | .u8 => 0xff
   | .s8 => -1
   | .l16 | .b16 => 0xffff
   | .l24 | .b24 | .l32 | .b32 => 0xffffffff
-
-/-- value returned on a failed read by the FILE back-end (dataio.c): as above
-except `read8s`, which returns 0. -/
-def Word.failFile : Word → Int
-  | .s8 => 0
-  | w => w.failOnes
 
 /-- `bytes[pos .. pos+n)` (shorter at the end of the data) -/
 def slice (bytes : Bytes) (pos n : Nat) : Bytes := (bytes.drop pos).take n
@@ -135,7 +130,7 @@ def step (bytes : Bytes) (t : St) : Op → Out × St
   | .word w =>
     match getcs bytes w.len t [] with
     | (some bs, t') => (.val (w.decode bs), t')            -- set_error(0): h->error untouched
-    | (none, t') => (.val w.failFile, { t' with err := .eof })  -- ferror(f) ? errno : EOF
+    | (none, t') => (.val w.failOnes, { t' with err := .eof })  -- ferror(f) ? errno : EOF
   | .read size num =>
     let (ret, got, t') := fread bytes t size num
     let t'' := if ret ≠ num then { t' with err := if t'.eofF then .eof else .other } else t'
@@ -363,14 +358,13 @@ def trace {σ : Type} (step : σ → Op → Out × σ) : List Op → σ → List
   | [], _ => []
   | o :: os, t => (step t o).1 :: trace step os (step t o).2
 
-/-- What a program may *not* look at: the value `read8s` yields at end of data
-(0 from a FILE, -1 otherwise) and the bytes of a trailing partial item after a
-short `hio_read` (callback dependent).  `Agree bytes s o out out'`: `out'` is a
-possible concrete result where the abstract stream says `out`. -/
-def Agree (bytes : Bytes) (s : Spec.St) (o : Op) (out out' : Out) : Prop :=
-  out' = out ∨
-  (o = .word .s8 ∧ bytes.length < s.pos + 1 ∧ ∃ v, out' = .val v) ∨
-  (∃ r items t t', out = .data r items t ∧ out' = .data r items t')
+/-- What a program may *not* look at: the bytes of a trailing partial item after a
+short `hio_read` (callback dependent; C leaves them indeterminate).
+`Agree out out'`: `out'` is a possible concrete result where the abstract stream says
+`out`.  (Until libxmp's `read8s` was aligned with the other back-ends the value of
+`hio_read8s` at end of data was a second relaxation; it is now specified: -1.) -/
+def Agree (out out' : Out) : Prop :=
+  out' = out ∨ (∃ r items t t', out = .data r items t ∧ out' = .data r items t')
 
 /-- **The agreeing fragment**: every operation is defined by `Spec` in the state
 in which it is issued, and the continuation does not depend on the unspecified
@@ -379,7 +373,7 @@ inductive InFrag {α : Type} (bytes : Bytes) : Spec.St → StreamProg α → Pro
   | ret (s : Spec.St) (a : α) : InFrag bytes s (.ret a)
   | op (s s' : Spec.St) (o : Op) (out : Out) (k : Out → StreamProg α) :
       Spec.step bytes s o = some (out, s') →
-      (∀ out', Agree bytes s o out out' → k out' = k out) →
+      (∀ out', Agree out out' → k out' = k out) →
       InFrag bytes s' (k out) → InFrag bytes s (.op o k)
 
 /-- run on the abstract stream (`none` when the program leaves the fragment) -/
